@@ -1,4 +1,7 @@
 import Martian.ForkName
+import Martian.ForkNameBatch
+import Martian.ForkNameSet
+import Proofs.ForkNameBatch
 import Gen.Facts
 import Driver.Util
 
@@ -18,7 +21,15 @@ Ops (byte strings hex-encoded, `-` = empty):
   find top fqids name    -> none | some hex  findNode (the fqid found)
   route top nodes s      -> nl | none | some fqid forkpos ch uq file   (nodes = `;`-separated `hexfqid:hexlist of fork names`)
   getfork names index    -> none | some i  getForkNew
-  getforkold names index -> none | some i  getForkOld
+  routebatch top nodes names  -> `;`-separated, one per entry: nl | none | n,f,ch,uq,file     routeBatch (n, f = list positions)
+  creditbatch top nodes names -> `;`-separated, one per entry: nl | none | n,f,slot,uq,name   deliver
+       (nodes = `;`-separated `hexfqid:hexlist of fork names:chunk counts` (`,`-separated naturals, `.` = none);
+        slot = o | s | j | c<i>; uq = the uniquifier carried, `-` = none)
+  makeforkids srcs       -> `;`-separated fork id strings (hex; `none` = error) of makeForkIds, in list order
+       srcs = `;`-separated `a:<len>` | `k:<hexlist of keys, sorted>` | `u`, first source first (fastest)
+  validbatch top nodes recs -> <tree ok 0|1>;<per record: 0|1 ValidJob holds>:<hex of JobRec.name>;…
+       recs = `;`-separated `node,fork,slot,uq,file,path,forkname,width` (slot = o|s|j|c<i>, uq `-` = none)
+  keylen k               -> <|fork_ ++ pathEscape k|> <|journalEnc of it|>
 -/
 namespace Driver.C11
 open Martian.ForkName Driver
@@ -47,8 +58,89 @@ def showOpt : Option Bytes → String
   | some b => hexOfBytes b
   | none => "-"
 
+def parseNats (s : String) : Option (List Nat) :=
+  if s == "." then some [] else (s.splitOn ",").mapM (·.toNat?)
+
+/-- nodes with (optional) chunk counts per fork -/
+def parseNodesC (s : String) : Option (List (NodeM × List Nat)) :=
+  if s == "." then some [] else (s.splitOn ";").mapM fun nd =>
+    match nd.splitOn ":" with
+    | [fq, fs] => do
+      let fq ← bytesOfHex fq
+      let fs ← parseHexList fs
+      pure ((⟨fq, fs⟩ : NodeM), [])
+    | [fq, fs, cs] => do
+      let fq ← bytesOfHex fq
+      let fs ← parseHexList fs
+      let cs ← parseNats cs
+      pure ((⟨fq, fs⟩ : NodeM), cs)
+    | _ => none
+
+def showSlot : Slot → String
+  | .own => "o"
+  | .split => "s"
+  | .join => "j"
+  | .chunk i => s!"c{i}"
+
 def handle (op : String) (args : List String) : Option String :=
   match op, args with
+  | "routebatch", [top, nodes, names] => do
+    let top ← bytesOfHex top
+    let nodes ← parseNodesC nodes
+    let names ← parseHexList names
+    let ns := nodes.map (·.1)
+    let rs := routeBatch top ns names
+    pure (";".intercalate ((names.zip rs).map fun (s, r) =>
+      if s.contains cNL then "nl" else
+      match r with
+      | none => "none"
+      | some (n, f, ch, uq, file) => s!"{n},{f},{showOpt ch},{showOpt uq},{hexOfBytes file}"))
+  | "creditbatch", [top, nodes, names] => do
+    let top ← bytesOfHex top
+    let nodes ← parseNodesC nodes
+    let names ← parseHexList names
+    let ns := nodes.map (·.1)
+    let nch := fun (n f : Nat) => ((nodes.getD n (⟨[], []⟩, [])).2).getD f 0
+    pure (";".intercalate (names.map fun s =>
+      if s.contains cNL then "nl" else
+      match deliver top ns nch s with
+      | none => "none"
+      | some d => s!"{d.owner.node},{d.owner.fork},{showSlot d.owner.slot},{hexOfBytes d.uniq},{hexOfBytes d.file}"))
+  | "makeforkids", [srcs] => do
+    let srcs ← (if srcs == "." then some [] else (srcs.splitOn ";").mapM fun x =>
+      match x.splitOn ":" with
+      | ["a", n] => n.toNat?.map Src.arr
+      | ["k", ks] => (parseHexList ks).map Src.keys
+      | ["u"] => some Src.undet
+      | _ => none)
+    pure (";".intercalate ((makeForkIds srcs).map fun ps =>
+      match forkIdString Gen.forkIdReenters Gen.forkIdSkipsEmpty ps with
+      | some b => hexOfBytes b
+      | none => "none"))
+  | "validbatch", [top, nodes, recs] => do
+    let top ← bytesOfHex top
+    let nodes ← parseNodesC nodes
+    let ns := nodes.map (·.1)
+    let nch := fun (n f : Nat) => ((nodes.getD n (⟨[], []⟩, [])).2).getD f 0
+    let recs ← (if recs == "." then some [] else (recs.splitOn ";").mapM fun x =>
+      match x.splitOn "," with
+      | [n, f, sl, uq, file, path, fk, w] => do
+        let n ← n.toNat?
+        let f ← f.toNat?
+        let sl ← (if sl == "o" then some Slot.own else if sl == "s" then some Slot.split else if sl == "j" then some Slot.join
+          else if sl.startsWith "c" then (sl.drop 1).toNat?.map Slot.chunk else none)
+        let uq ← optB uq
+        let file ← bytesOfHex file
+        let path ← bytesOfHex path
+        let fk ← bytesOfHex fk
+        let w ← w.toNat?
+        pure (⟨n, f, sl, uq, file, path, fk, w⟩ : JobRec)
+      | _ => none)
+    let t := if treeOkB ns then "1" else "0"
+    pure (";".intercalate (t :: recs.map fun r => (if validJobB top ns nch r then "1" else "0") ++ ":" ++ hexOfBytes r.name))
+  | "keylen", [k] => do
+    let k ← bytesOfHex k
+    pure s!"{(mapForkDir k).length} {(journalEnc Gen.journalPairs (mapForkDir k)).length}"
   | "esc", [k] => do
     let k ← bytesOfHex k
     pure (hexOfBytes (pathEscape k))
@@ -113,12 +205,6 @@ def handle (op : String) (args : List String) : Option String :=
     | none => pure "none"
     | some (n, f, ch, uq, file) =>
       pure s!"some {hexOfBytes ((nodes.getD n ⟨[], []⟩).fqid)} {f} {showOpt ch} {showOpt uq} {hexOfBytes file}"
-  | "getforkold", [names, index] => do
-    let names ← parseHexList names
-    let index ← bytesOfHex index
-    match getForkOld names index with
-    | some i => pure s!"some {i}"
-    | none => pure "none"
   | _, _ => none
 
 end Driver.C11
